@@ -753,6 +753,9 @@ class FreshWorld(World):
         if failed is None and fref is not None:
             raise Violation("fresh-raises-live-succeeds", f"fresh Solve raised {fref}", fref.site)
         if failed is not None:
+            # the failed attempt may have left trial values behind (e.g. internal variables of the last Newton iterate):
+            # from now on the reference is given the live simulation's state, as after any solve
+            rec.extra_reset = False
             if simlib.is_nonconvergence(failed.exc):
                 ctx.probe("solve_not_converged_both")
             return "exc:both:" + failed.kind
